@@ -138,3 +138,53 @@ Definition client_io (fastopen : bool) (sc : script) (ns : list nat) : rderr + (
 
 (* the first three actions of every run that relays *)
 Definition accept_run : list act := [AReadReq true; ADial None; AWriteResp true Connected].
+
+(* ---- the application that polls: it reads with a short read deadline and retries a Read that failed with the deadline
+   error.  In a script a deadline that expires while nothing has arrived is the event Fail EOther (Read returns (0, err)
+   and the stream goes on afterwards); tcpConn.Read as above: while the response has not been read completely,
+   Established stays false and the NEXT Read parses the response from where the stream is. *)
+Definition transient (e : rderr) : bool :=
+  match e with RResp EOther | RStream EOther => true | _ => false end.
+
+Fixpoint app_polls (c : cconn) (ns : list nat) : bytes * option rderr :=
+  match ns with
+  | [] => ([], None)
+  | n :: t =>
+      let r := conn_read c n in
+      match snd (fst r) with
+      | Some e => if transient e
+                  then let r' := app_polls (snd r) t in (fst (fst r) ++ fst r', snd r')
+                  else (fst (fst r), Some e)
+      | None => let r' := app_polls (snd r) t in (fst (fst r) ++ fst r', snd r')
+      end
+  end.
+
+(* k expired deadlines in a row *)
+Definition deadlines (k : nat) : script := repeat (Fail EOther) k.
+
+(* the variant of tcpConn.Read that guards the lazy response read with a sync.Once ("consume the response header only
+   once"): an attempt that FAILED also spends the Once, after which Read goes straight to the stream
+       if !c.Established { c.respOnce.Do(func() { err = c.readResponse() }); if err != nil { return 0, err } }
+       return c.Orig.Read(b) *)
+Record oconn := mkOC { o_est : bool; o_spent : bool; o_strm : rstate }.
+Definition conn_read_once (c : oconn) (n : nat) : (bytes * option rderr) * oconn :=
+  if o_est c || o_spent c
+  then let r := stream_read (o_strm c) n in (fst r, mkOC (o_est c) (o_spent c) (c_strm (snd r)))
+  else match read_tcp_response (o_strm c) with
+       | (Ok (true, _), st') => let r := stream_read st' n in (fst r, mkOC true true (c_strm (snd r)))
+       | (Ok (false, msg), st') => (([], Some (RDial msg)), mkOC false true st')
+       | (Err e, st') => (([], Some (RResp e)), mkOC false true st')
+       | (Panic _, st') => (([], Some (RResp EOther)), mkOC false true st')
+       end.
+Fixpoint app_polls_once (c : oconn) (ns : list nat) : bytes * option rderr :=
+  match ns with
+  | [] => ([], None)
+  | n :: t =>
+      let r := conn_read_once c n in
+      match snd (fst r) with
+      | Some e => if transient e
+                  then let r' := app_polls_once (snd r) t in (fst (fst r) ++ fst r', snd r')
+                  else (fst (fst r), Some e)
+      | None => let r' := app_polls_once (snd r) t in (fst (fst r) ++ fst r', snd r')
+      end
+  end.
